@@ -40,6 +40,10 @@ SPECS = [
     ("SCORED_LEVELS", "src/versioning/version.rs", r"fn finalize\(&mut self\) \{.*?for level in 0\.\.([^{]+?)\{"),
     ("STARTING_MULTIPLE_BYTES", "src/versioning/version.rs", r"let starting_multiple_bytes: f64 = ([^;]+);"),
     ("LEVEL_ONE_MAX_BYTES", "src/versioning/version.rs", r"let mut level = level;\s*let mut result: f64 = ([^;]+);"),
+    # seek budget of a new table file (`FileMetadata::set_file_size`)
+    ("SEEK_DATA_SIZE_THRESHOLD", "src/config.rs", r"const SEEK_DATA_SIZE_THRESHOLD_KIB: u64 = ([^;]+);"),
+    ("MIN_ALLOWED_SEEKS", "src/versioning/file_metadata.rs", r"if allowed_seeks < (\d+) \{\s*allowed_seeks = \1;"),
+    ("ITERATION_READ_BYTES_PERIOD", "src/config.rs", r"const ITERATION_READ_BYTES_PERIOD: u64 = ([^;]+);"),
     ("LEVEL_MAX_BYTES_MULTIPLIER", "src/versioning/version.rs", r"while level > 1 \{\s*result \*= ([^;]+);"),
 ]
 # names used inside right-hand sides
